@@ -23,7 +23,7 @@
 //   end ok
 //   endcase
 // A start-up that does not return is detected by a CPU-time (not wall-clock) limit of the
-// per-case child process (ITIMER_VIRTUAL, 1 s of user time for a computation of milliseconds).
+// per-case child process (ITIMER_VIRTUAL, 0.3 s of user time for a computation of milliseconds).
 #include <pika/affinity/affinity_data.hpp>
 #include <pika/command_line_handling/command_line_handling.hpp>
 #include <pika/modules/errors.hpp>
@@ -177,7 +177,7 @@ static void run_case(kase const& c)
 
     phase = 0;
     std::fflush(stdout);
-    arm(1000);
+    arm(300);
     pika::detail::command_line_handling cmdline{pika::util::runtime_configuration(argv[0]), {},
         [](pika::program_options::variables_map&) { return 0; }};
     try
@@ -212,7 +212,7 @@ static void run_case(kase const& c)
     phase = 1;
     std::fflush(stdout);
     std::string line;
-    arm(1000);
+    arm(300);
     try
     {
         // as in run_or_start
